@@ -23,6 +23,7 @@
 // decrypts under keys derived from the NEW randoms; otherwise full handshake
 // with a different master secret; data flows either way.
 #include "common/tls_session.hpp"
+#include "common/tls_hello.hpp"
 #include <deque>
 #include <algorithm>
 
@@ -301,7 +302,48 @@ static void part_b(Tape &t)
 		// current configuration of both sides
 		std::vector<uint16_t> csu, ssu;
 		unsigned cvmin = 0x0301, cvmax = 0x0303, svmin = 0x0301, svmax = 0x0303;
-		unsigned kind = (ob >> 1) % 10;
+		unsigned kind = (ob >> 1) % 11;
+		if (kind == 10 && saved[ci].have) {
+			// A client that is not this library (scripted ClientHello) offers the remembered session id of client ci with a
+			// lower maximum version, without the session's suite, or with everything still fitting.  The server looks the id
+			// up (the model does too) and may abbreviate only in the last case; the handshake is not completed.
+			const ConnResult &sv = saved[ci].r;
+			unsigned variant = ab % 3;
+			if (variant == 0 && sv.version == 0x0301) variant = 1;
+			ClientHelloSpec ch;
+			ch.version = variant == 0 ? sv.version - 1 : 0x0303;
+			ch.random = Bytes(32, (uint8_t)(0x40 + op));
+			ch.session_id = sv.sid;
+			for (uint16_t x : RSA_SUITES) if (!(variant == 1 && x == sv.suite)) ch.suites.push_back(x);
+			ch.add_reneg();
+			std::vector<uint16_t> all(RSA_SUITES, RSA_SUITES + 7);
+			br_ssl_engine_set_suites(s.eng, all.data(), all.size());
+			br_ssl_engine_set_versions(s.eng, 0x0301, 0x0303);
+			VF_CHECK(s.reset(), "reset");
+			Bytes out = drive_endpoint(&s, ch.records());
+			ServerFlight f = parse_server_flight(out);
+			MEntry me;
+			bool have = sv.sid.size() == 32 && model.load(sv.sid, me);
+			static const char *VN[] = { "with a maximum version below the session's", "without the session's cipher suite", "with everything still acceptable" };
+			std::string ctx = fmt("[%s] op %u: foreign client offers the session of client %d (%04x/%04x) %s", hist.c_str(), op, ci, sv.version, sv.suite, VN[variant]);
+			VF_CHECK(f.parse_error.empty() && f.got_hello && f.alert_desc < 0, "%s: no ServerHello (alert %d, error %d, %s)", ctx.c_str(), f.alert_desc, s.error(), f.parse_error.c_str());
+			bool abbreviated = !f.has_cert;
+			if (variant == 2 && have) {
+				VF_CHECK(abbreviated && f.session_id == sv.sid && f.version == sv.version && f.suite == sv.suite, "%s: the cache holds it, but the server answered with a %s handshake (version %04x suite %04x)", ctx.c_str(),
+					abbreviated ? "differently parameterised abbreviated" : "full", f.version, f.suite);
+				abbreviated_n++;
+			} else {
+				VF_CHECK(!abbreviated && f.session_id != sv.sid, "%s: the server RESUMES (ServerHello version %04x suite %04x, no Certificate) although %s", ctx.c_str(), f.version, f.suite,
+					!have ? "its cache does not hold the id" : variant == 0 ? "the session's version is above what this client allows" : "this client does not propose the session's suite");
+				VF_CHECK(f.version == ch.version, "%s: full handshake at version %04x, the highest common one is %04x", ctx.c_str(), f.version, ch.version);
+				VF_CHECK(std::find(ch.suites.begin(), ch.suites.end(), (uint16_t)f.suite) != ch.suites.end(), "%s: suite %04x was not offered", ctx.c_str(), f.suite);
+			}
+			resumptions_tried++;
+			hist += fmt("foreign offer (%s)=>%s; ", VN[variant], abbreviated ? "abbreviated" : "full");
+			stats.evals++;
+			continue;
+		}
+		if (kind == 10) kind = 0;
 		bool resume = kind != 0 && saved[ci].have;
 		std::string what = resume ? "resume" : "new";
 		Model empty_model;
